@@ -31,7 +31,8 @@ structure State where
   instances : List (LibName × List (String × Value)) := []  -- libraries already instantiated
   inProgress : List LibName := []
   importEnd : Bool := false
-  files : List (String × FileEntry) := []                -- `<dir>/<name…>.sld` relative to the program
+  files : List (String × FileEntry) := []                -- directory-qualified paths (`fileKey`); "" = the program base
+  dir : String := ""                                     -- where libraries are looked up NOW (`program_directory`, else the cwd)
   deriving Inhabited
 
 def assocInsert {α} (l : List (String × α)) (k : String) (v : α) : List (String × α) :=
@@ -51,6 +52,14 @@ def libLookup {α} (l : List (LibName × α)) (k : LibName) : Option α :=
 
 /-- `LibraryName::path()` with extension `sld` -/
 def libPath (n : LibName) : String := "/".intercalate (n.map LibElem.toString) ++ ".sld"
+
+/-- `base_directory.join(path)`: the key of a file in `State.files`; "" is the directory the keys
+are relative to -/
+def fileKey (d p : String) : String := if d = "" then p else d ++ "/" ++ p
+
+/-- `Path::parent`: everything before the last `/` ("" if there is none) -/
+def dirOfChars (cs : List Char) : List Char := ((cs.reverse.dropWhile (· ≠ '/')).drop 1).reverse
+def dirOf (path : String) : String := String.ofList (dirOfChars path.toList)
 
 /-- the bundled derived forms: `create_syntax_binding` runs the parser over `grammar.sld`, which
 binds every `define-syntax` in it -/
@@ -150,7 +159,7 @@ def getLibrary : Nat → State → LibName → Loc → Except SErr (List (String
         match libLookup st.factories name with
         | some f => (.ok f, st)
         | none =>
-          match st.files.lookup (libPath name) with
+          match st.files.lookup (fileKey st.dir (libPath name)) with
           | none => (.error (.libNotFound, loc), st)
           | some .unreadable => (.error (.io, none), st)
           | some (.text t) =>
@@ -273,6 +282,15 @@ def evalText (fuel : Nat) (st : State) (text : List Char) : Except SErr (Option 
           | (.error e, st) => (.error e, st)
           | (.ok v, st) => go n s' st v
   go (s.toks.length + 1) s st none
+
+/-- `eval_file`: the directory of the program file becomes the lookup directory (before the file
+is read), then the text of the file is evaluated; a file that cannot be read as text is an io
+error -/
+def evalFile (fuel : Nat) (st : State) (path : String) : Except SErr (Option Value) × State :=
+  let st := { st with dir := dirOf path }
+  match st.files.lookup path with
+  | some (.text t) => evalText fuel st t.toList
+  | _ => (.error (.io, none), st)
 
 /-- `Interpreter::default()`: a root frame, an own syntax scope over the bundled forms, the four
 standard factories (`(scheme base)`/`(scheme write)` parsed from the bundled text) -/
